@@ -19,6 +19,9 @@ def parse_uint(s, bound):
     return v if v < bound else None
 
 
+DASH_DIRS = ["-srv", "--in", "-s"]
+
+
 class C17(Prop):
     id = "C17"
     module = "Tftp.Props.C17"
@@ -34,6 +37,9 @@ class C17(Prop):
         os.makedirs(os.path.join(base, "d2", "in"), exist_ok=True)
         with open(os.path.join(base, "d1", "plain.txt"), "w") as fh:
             fh.write("x")
+        # directories whose names begin with a dash, relative to the working directory of the implementation run
+        for dn in DASH_DIRS:
+            os.makedirs(os.path.join(os.path.dirname(base), dn), exist_ok=True)
         # the last one is the working directory of the implementation run, spelled out: it must count as given
         return [os.path.join(base, "d1"), os.path.join(base, "d2"), os.path.join(base, "d2", "in"), "/", ".", os.path.dirname(base)], \
                [os.path.join(base, "nope"), "", os.path.join(base, "d1", "x", "y"),
@@ -43,6 +49,11 @@ class C17(Prop):
     def server_groups(self, rng):
         good, bad = self.dirs()
         g = []
+        # a value is whatever follows the flag, also when it begins with a dash (existing directories -srv, --in)
+        for dn in DASH_DIRS:
+            g.append(("dir", rng.choice(["-d", "--directory"]), dn))
+            g.append(("rd", rng.choice(["-rd", "--receive-directory"]), dn))
+            g.append(("sd", rng.choice(["-sd", "--send-directory"]), dn))
         for ip in VALID_IPS[:3] + BAD_IPS[:3]:
             g.append(("ip", rng.choice(["-i", "--ip-address"]), ip))
         for p in ["0", "1234", "65535", "65536", "+7", "abc", "", "-1"]:
@@ -85,7 +96,8 @@ class C17(Prop):
             toks += list(gr[1:])
         if dangling:
             toks.append(dangling)
-        orc = ["I" + ip.encode().hex() for ip in VALID_IPS] + ["P" + d.encode().hex() for d in good[:5] if d] + ["W" + good[5].encode().hex()]
+        orc = (["I" + ip.encode().hex() for ip in VALID_IPS] + ["P" + d.encode().hex() for d in good[:5] if d] +
+               ["P" + d.encode().hex() for d in DASH_DIRS] + ["W" + good[5].encode().hex()])
         return "cfg %s %s %s" % (kind, ",".join(orc), " ".join(hx(t) for t in toks))
 
     def generate(self, tier, rng):
